@@ -29,6 +29,14 @@ class ModelledAttributeError(AttributeError, ModelledError):
     pass
 
 
+class ModelledIndexError(IndexError, ModelledError):
+    pass
+
+
+class ModelledTypeError(TypeError, ModelledError):
+    pass
+
+
 class Obligation:
     __slots__ = ('name', 'hyps', 'goal', 'kind', 'path', 'note', 'uid', 'unit')
 
@@ -39,6 +47,7 @@ class Obligation:
 class Ctx:
     cur = None
     spec = 0          # >0 while a spec formula is being evaluated: no safety obligations, no forking
+    closure_depth = 0  # >0 while the element expression of a symbolic comprehension is evaluated at an index
 
     def __init__(self, prefix, tag=''):
         self.prefix = list(prefix)
@@ -823,7 +832,7 @@ class SArr:
                 plan.append(('new',))
                 continue
             if src >= self.ndim:
-                raise IndexError('too many indices for array')
+                raise ModelledIndexError('too many indices for array: array is %d-dimensional, but %d were indexed' % (self.ndim, len([q for q in key if q is not None])))
             n = self.shape_e[src]
             if isinstance(k, slice):
                 if k.step is not None:
@@ -1189,6 +1198,13 @@ class SArr:
     def tolist(self):
         raise Unsupported('tolist of symbolic array')
 
+    def sort(self, axis=-1):
+        from . import npshim
+        self._write_check()
+        r = npshim.sort(self)
+        self.elem, self.nan = r.elem, r.nan
+        self.sorted_from = r.sorted_from
+
 
 def _size_exceeds(e, limit):
     n = 0
@@ -1269,7 +1285,14 @@ class SymList:
             raise Unsupported('slice of symbolic list')
         if not Ctx.spec:
             C().oblige('index-in-bounds', z3.And(-self.n <= lift(j), lift(j) < self.n), 'safety')
-        return self.item(j)
+        return self.at(j)
+
+    def at(self, j):
+        Ctx.closure_depth += 1
+        try:
+            return self.item(j)
+        finally:
+            Ctx.closure_depth -= 1
 
 
 class SNan:
